@@ -28,7 +28,7 @@ class Scen:
 
 def base_scenario(cls, rng, k=0, nx=2, nyh=3, shape=None):
     """Concrete scenario of class `cls` (record from the spec)."""
-    shapes = ["all", "swept", "tapered", "cambered", "twisted", "dihedral", "flat"]
+    shapes = ["all", "swept", "tapered", "cambered", "twisted", "dihedral", "flat", "steep"]
     surfs = []
     symflow = cls["symflow"]
     geosym = symflow or cls["span"] == "half"  # the geometry of a half model is mirror-symmetric whatever the flow
